@@ -84,6 +84,17 @@ CLAIMS = {
             "only for the root run, and solve() tries each soft requirement after the hard run, per element, only if it is undecided "
             "at that moment, ignoring Ok(false). Level arithmetic under backjumps inside a soft run is not decided.",
             "DESIGN.md section 4 C14"),
+    "C15": ("loop-completeness (T-PAIR), def-use/data-slice of index and bit operands, guard dominance in AtMostOnceTracker::add and the encoder's callbacks (MIR)",
+            "Only necessary structural conditions of C15 are decided - the bookkeeping every incremental binary at-most-one "
+            "encoding needs: a tracked variable is never re-indexed (dedup test dominates every effect); a new variable is always "
+            "recorded; a new variable gets one clause per helper and a new helper one clause per existing variable (complete, "
+            "unconditional loops over the loop's own operands); the polarity of each clause is a function of the variable's position "
+            "in the tracked set (len before insert / enumerate) and of the bit number; helpers come from alloc_var, are pushed, and "
+            "are sized under a test reading both lengths; the encoder maps the boolean to the helper literal's polarity, builds a "
+            "ForbidMultiple clause on the pair and registers it; variable ids are fresh; every candidate reaches the tracker of its "
+            "own package. The arithmetic (enough bits for n candidates, the two bit expressions agreeing for every n) is NOT "
+            "decided: that part of C15 is not applicable to static analysis (DESIGN.md section 6).",
+            "DESIGN.md section 4 C15"),
     "C09": ("who-may-call census over resolved trait-method call sites + memoisation guard-dominance/post-dominance (T-MEMO) on MIR",
             "Decides the mechanisms of C09 on every path: single choke point per provider method, each dominated by the miss "
             "edge of its memo lookup and followed by the insert under the same key, in-flight sharing for get_candidates, per-solve "
@@ -163,7 +174,6 @@ CLAIMS = {
 }
 
 NA = {
-    "C15": "correctness of the logarithmic at-most-one encoding for every n is an arithmetic theorem about bit patterns; needs proof or enumeration, not code-shape analysis; the registration half is decided under C01 (DESIGN.md section 6)",
 }
 PENDING = "rule module not yet registered in this revision (planned: DESIGN.md section 4)"
 
